@@ -44,7 +44,8 @@ AddC(a, b) == C("add", a, b, 0, 0)
 SumC == C("sum", 0, 0, 0, 0)
 IfC(c, a, b) == C("if", a, b, c, 0)
 SeqC(a) == C("seq", a, 0, 0, 0)
-SeqHC(a) == C("seqh", a, 0, 0, 0)         \* SEQUENCE(1, a): spills to the right
+SeqHC(a) == C("seqh", a, 0, 0, 0)
+CountC == C("count", 0, 0, 0, 0)          \* COUNT over the whole column: counts numbers, ignores errors         \* SEQUENCE(1, a): spills to the right
 
 (* ---- values --------------------------------------------------------------- *)
 NumV(n) == [t |-> "n", n |-> n, e |-> ""]
@@ -57,6 +58,13 @@ Worse(a, b) == IF IsE(a) /\ a.e = "NOV" THEN a ELSE IF IsE(b) /\ b.e = "NOV" THE
 
 VARIABLES content, trail, steps
 vars == <<content, trail, steps>>
+
+(* ---- static reads (used by the value function for COUNT, and by the invariants) ------------ *)
+Reads(ct, c) == LET x == ct[c] IN CASE x.k = "ref" -> {x.a} [] x.k = "add" -> {x.a, x.b} [] x.k \in {"sum", "count"} -> Col [] x.k = "if" -> {x.a, x.b, x.c}
+                                     [] x.k = "seq" -> {x.a} [] x.k = "seqh" -> {x.a} [] OTHER -> {}
+RECURSIVE Reach(_, _, _)
+Reach(ct, S, k) == IF k = 0 THEN S ELSE Reach(ct, S \cup UNION {Reads(ct, c) : c \in S}, k - 1)
+OnCycle(ct, c) == c \in Reach(ct, Reads(ct, c), N + 3)
 
 (* ---- the value function ----------------------------------------------------- *)
 RECURSIVE Val(_, _, _), Height(_, _, _), SpillAt(_, _, _), SumFrom(_, _, _, _), Width(_, _), RowSpillAt(_, _, _)
@@ -71,6 +79,12 @@ Val(ct, c, st) ==
       [] x.k = "add" -> LET l == AsNum(Val(ct, x.a, st2))  r == AsNum(Val(ct, x.b, st2)) IN
                         IF IsE(l) \/ IsE(r) THEN Worse(l, r) ELSE NumV(l.n + r.n)
       [] x.k = "sum" -> SumFrom(ct, 1, st2, NumV(0))
+      \* COUNT ignores the errors it meets, but a formula whose evaluation depends on its own value is #CIRC!
+      \* whatever its function does with errors (the statement); the cycle is read off the static reads
+      [] x.k = "count" -> IF OnCycle(ct, c) THEN ErrV("CIRC")
+                          ELSE LET vs == [i \in Col |-> Val(ct, i, st2)] IN
+                               IF \E i \in Col : IsE(vs[i]) /\ vs[i].e = "NOV" THEN ErrV("NOV")
+                               ELSE NumV(Cardinality({i \in Col : vs[i].t = "n"}))
       [] x.k = "if" -> LET cnd == AsNum(Val(ct, x.c, st2)) IN
                        IF IsE(cnd) THEN cnd ELSE IF cnd.n > 0 THEN AsNum(Val(ct, x.a, st2)) ELSE AsNum(Val(ct, x.b, st2))
       [] x.k = "seq" -> LET h == Height(ct, c, st2) IN IF IsE(h) THEN h ELSE NumV(1)
@@ -135,7 +149,7 @@ Targets == Cells
 Menu(c) ==
   IF c \in RowCells THEN {EmptyC, NumC(2), RefC(1), RefC(X)} ELSE
   {EmptyC, NumC(0), NumC(2), NumC(3)} \cup {RefC(a) : a \in Cells} \cup {AddC(a, b) : a \in {1, 2}, b \in {3, X}}
-  \cup {SumC} \cup {IfC(X, 1, 2), IfC(1, c, 3), IfC(2, 3, c)} \cup {SeqC(a) : a \in {1, X}} \cup (IF c = 1 THEN {SeqC(2), SeqHC(X), SeqHC(2)} ELSE {})
+  \cup {SumC, CountC} \cup {IfC(X, 1, 2), IfC(1, c, 3), IfC(2, 3, c)} \cup {SeqC(a) : a \in {1, X}} \cup (IF c = 1 THEN {SeqC(2), SeqHC(X), SeqHC(2)} ELSE {})
 
 RInit == content = [c \in Cells |-> EmptyC] /\ trail = <<>> /\ steps = 0
 SetCell(c, x) ==
@@ -148,9 +162,6 @@ RSpec == RInit /\ [][RNext]_vars
 
 (* ---- the statement on the design ------------------------------------------------- *)
 (* C05: a formula shows #CIRC! only if it is on a cycle or reads a cell that shows it *)
-Reads(ct, c) == LET x == ct[c] IN CASE x.k = "ref" -> {x.a} [] x.k = "add" -> {x.a, x.b} [] x.k = "sum" -> Col [] x.k = "if" -> {x.a, x.b, x.c} [] x.k = "seq" -> {x.a} [] x.k = "seqh" -> {x.a} [] OTHER -> {}
-RECURSIVE Reach(_, _, _)
-Reach(ct, S, k) == IF k = 0 THEN S ELSE Reach(ct, S \cup UNION {Reads(ct, c) : c \in S}, k - 1)
 OnCycleOrReadsOne(ct, c) == \E d \in Reach(ct, {c}, N + 3) : d \in Reach(ct, Reads(ct, d), N + 3)
 CircOnlyOnCycles == \A c \in Cells : LET v == Shown(content)[c] IN (IsE(v) /\ v.e = "CIRC") => OnCycleOrReadsOne(content, c)
 (* C31: a spilled value sits only where its formula's current result puts it, never on user content *)
